@@ -222,11 +222,42 @@ def scenario_build(sc, base):
     return [src, dest], env, e2e.fake_ssh_dir(base, SSH_WRAPPER)
 
 
+def count_doers(tag):
+    """rjrssync --doer processes that carry this run's tag in their environment and are still alive"""
+    n = 0
+    for pid in os.listdir('/proc'):
+        if not pid.isdigit():
+            continue
+        try:
+            with open('/proc/%s/cmdline' % pid, 'rb') as f:
+                cl = f.read()
+            if b'--doer' not in cl or b'rjrssync' not in cl:
+                continue
+            with open('/proc/%s/stat' % pid) as f:
+                if f.read().split(') ', 1)[1].split()[0] == 'Z':
+                    continue
+            with open('/proc/%s/environ' % pid, 'rb') as f:
+                if tag.encode() in f.read():
+                    n += 1
+        except (OSError, IndexError):
+            pass
+    return n
+
+
 def run_real(binary, sc, base, watchdog=WATCHDOG):
     argv, env, fake = scenario_build(sc, base)
     r = e2e.run_cli(binary, argv, env=env, timeout=watchdog, fake_ssh=fake)
+    # a doer the boss has let go of (stdin closed, connection gone) ends by itself: give it a few seconds, then count what is still there
+    orphans = 0
+    if not r['timed_out']:
+        t_end = time.time() + 6.0
+        while True:
+            orphans = count_doers(env['C09_RUN_TAG'])
+            if orphans == 0 or time.time() > t_end:
+                break
+            time.sleep(0.1)
     leftovers = L.reap(env['C09_RUN_TAG'])
-    obs = {'exit': r['exit'], 'timed_out': r['timed_out'], 'wall_s': round(r['wall_s'], 3),
+    obs = {'exit': r['exit'], 'timed_out': r['timed_out'], 'wall_s': round(r['wall_s'], 3), 'orphan_doers': orphans,
            'stderr_tail': e2e.ANSI.sub('', r['stderr'])[-500:], 'leftover_processes': leftovers, 'watchdog': watchdog}
     try:
         obs['cmd_lines'] = [cmd_rest(l) for l in open(os.path.join(base, 'cmd.log')).read().splitlines() if l.strip()]
@@ -468,6 +499,8 @@ def oracle(sc, obs):
     status when a fault happened; never hangs."""
     if obs['timed_out']:
         return 'the run did not hand control back within the watchdog (%.0f s): hang' % obs['watchdog']
+    if obs.get('orphan_doers'):
+        return 'the boss returned (exit %s) but %d doer process(es) it had launched were still running 6 s later' % (obs['exit'], obs['orphan_doers'])
     if fault_surely_happened(sc, obs) is True and obs['exit'] == 0:
         return 'a fault happened (%s) but the exit status is 0' % sc['fault']['kind']
     return None
@@ -549,12 +582,24 @@ def family(run, binary, jbin, tmp, only=None, workers=6):
     answers = vlib.judge(jbin, lines) if lines else []
     nfail = 0
 
+    def void(sc, obs):
+        # the launch itself did not come about (status 10 / 11 with not a single command logged, no fault of ours delivered): the machine was
+        # too busy for the fake ssh or the connection - the scenario did not take place
+        return (sc['fault']['kind'] not in ('launch', 'connect') and obs['exit'] in (10, 11) and not obs['cmds'] and not obs['timed_out']
+                and not (obs.get('status') or {}).get('killed') and not (obs.get('status') or {}).get('stdin_closed'))
+
     def one(sc):
-        base = fresh(tmp, 'r_')
-        try:
-            return run_real(binary, sc, base)
-        finally:
-            shutil.rmtree(base, ignore_errors=True)
+        for attempt in range(3):
+            base = fresh(tmp, 'r_')
+            try:
+                obs = run_real(binary, sc, base)
+            finally:
+                shutil.rmtree(base, ignore_errors=True)
+            if not void(sc, obs):
+                return obs
+            time.sleep(0.5)
+        obs['void'] = True
+        return obs
 
     with cf.ThreadPoolExecutor(max_workers=workers) as ex:
         futs = {ex.submit(one, sc): i for i, sc in enumerate(scs)}
@@ -563,6 +608,9 @@ def family(run, binary, jbin, tmp, only=None, workers=6):
             sc, obs = scs[i], f.result()
             a, b = spans[i]
             fl = sc['fault']
+            if obs.get('void'):
+                run.count('remote:launch-did-not-come-about(skipped)')
+                continue
             run.count('remote:fault:' + fl['kind'])
             run.count('remote:side:' + sc['side'])
             run.count('remote:doer_status:' + str(doer_status(obs)))
